@@ -11,6 +11,8 @@ line protocol (fields blank separated; strings as hex of their UTF-8, "-" = empt
   lookup <host> <hmac table> <entries>   -> none | <keyType> <key>
   sys <host> <port> <tSocket> <tTransport> <keyFile> <username> <strictOff 0/1> <knownHosts> <configFile> <userArgs list>
         -> <argv list> <effective StrictHostKeyChecking | none> <effective UserKnownHostsFile | none>
+  hist <lib> <close 0/1>:<11 bits>;…   (attempts on ONE transport object, each on the first generated path)
+        -> <trace>/<protected>/<sessionLeft after> joined by "|"
   order  -> the generated call lists and pinOf
 unimportable keys: `keyType:key` pairs asyncssh cannot load, joined by "," or "." (the `imp` parameter)
 hmac table: `salt:digest` pairs (for the host of the line) joined by "," or "."
@@ -123,9 +125,35 @@ def handleLine (line : String) : String :=
       let cmd := buildOpenCmd a
       s!"{Hex.encodeList ((renderCmd cmd).map ofString)} {optStr (optValue "StrictHostKeyChecking" cmd)} {optStr (optValue "UserKnownHostsFile" cmd)}"
     | none => "bad-op"
+  | ["hist", lib, atts] =>
+    match libOf lib with
+    | some l =>
+      let calls := match l with
+        | .paramiko => Scrapli.Gen.HostKey.paramikoOpenCalls
+        | .ssh2 => Scrapli.Gen.HostKey.ssh2OpenCalls
+        | .asyncssh => Scrapli.Gen.HostKey.asyncsshOpenCalls
+      let parsed : List (Option Attempt) := (atts.splitOn ";").map (fun a =>
+        match a.splitOn ":" with
+        | [c, b] =>
+          match bits b with
+          | [a1, a2, a3, ai, a4, a5, a6, a7, a8, a9, a10] =>
+            some { closeBefore := c == "1", path := calls,
+                   cfg := { strict := a1, found := a2, equal := a3, importable := ai, hasKey := a4, keyLoads := a5,
+                            hasPw := a6, hasUser := a7, kexOK := a8, accKey := a9, accPw := a10 } }
+          | _ => none
+        | _ => none)
+      if parsed.any Option.isNone then "bad-op" else
+      let hist := parsed.filterMap id
+      let rec go (st : TState) : List Attempt → List String
+        | [] => []
+        | a :: rest =>
+          let r := attemptStep l st a
+          s!"{(traceStr r.2).replace " " "/"}/{if r.1.sessionLeft then 1 else 0}" :: go r.1 rest
+      "|".intercalate (go {} hist)
+    | none => "bad-op"
   | ["order"] =>
     let f := fun (l : List (Scrapli.HostKey.Call × Bool)) => ",".intercalate (l.map callStr)
-    s!"{f Scrapli.Gen.HostKey.paramikoOpenCalls} {f Scrapli.Gen.HostKey.ssh2OpenCalls} {f Scrapli.Gen.HostKey.asyncsshOpenCalls} {if pinOf Scrapli.Gen.HostKey.asyncsshOpenCalls then 1 else 0}{if fallbackOf Scrapli.Gen.HostKey.asyncsshOpenCalls then 1 else 0}"
+    s!"{f Scrapli.Gen.HostKey.paramikoOpenCalls} {f Scrapli.Gen.HostKey.ssh2OpenCalls} {f Scrapli.Gen.HostKey.asyncsshOpenCalls} {if pinOf Scrapli.Gen.HostKey.asyncsshOpenCalls then 1 else 0}{if fallbackOf Scrapli.Gen.HostKey.asyncsshOpenCalls then 1 else 0} paths={Scrapli.Gen.HostKey.paramikoOpenPaths.length},{Scrapli.Gen.HostKey.ssh2OpenPaths.length},{Scrapli.Gen.HostKey.asyncsshOpenPaths.length}"
   | _ => "bad-op"
 
 partial def loop (h : IO.FS.Stream) : IO Unit := do
